@@ -23,5 +23,5 @@ Lemma pins_C09_ok :
   ; "0be98b4b952b2caaefbe22b92e2ec6942fec44d8ac370679763cea1ae958c4e2"   (* rca.py: _inv_sqrtm *)
   ; "9fea55bbd17833d1e96978e25a548d1318429c5bed048256a73119cfa5764f7e"   (* lfda.py: LFDA.fit *)
   ; "d4fc434fedbb0eca0b1fdd79203588f462f7e4a0dbc7de757da015246f65dd9c"   (* lfda.py: _sum_outer *)
-  ; "0d03f6fd5b6f458590870696618190ed2a2e561a36b46e636e243c2dd8063d93"   (* lfda.py: _eigh *) ].
+  ; "d0819a539a6abe015e7a07178bbf0dd36e9cd711920df5db37c21ab78c8b3980"   (* lfda.py: _eigh *) ].
 Proof. reflexivity. Qed.
